@@ -12,7 +12,7 @@ use air::{
 use crypto::{ElementHasher, RandomCoin};
 use math::{fields::CubeExtension, ExtensibleField, ExtensionOf, FieldElement, StarkField, ToElements};
 use prover::{
-    matrix::ColMatrix, DefaultConstraintEvaluator, DefaultTraceLde, Prover, StarkDomain, Trace,
+    matrix::ColMatrix, DefaultConstraintEvaluator, DefaultTraceLde, Prover, StarkDomain, Trace, TraceLde,
     TracePolyTable,
 };
 use simcore::Chooser;
@@ -600,6 +600,84 @@ pub struct AuxFault {
     pub neg: bool,
 }
 
+/// Byzantine behaviour of the prover node's trace commitments: it ANNOUNCES (and absorbs into its
+/// coin) another digest than the root of the tree it later opens queries against.
+#[derive(Clone, Copy, Debug, PartialEq, Eq)]
+pub enum Lie {
+    MainCommitment,
+    AuxCommitment,
+}
+
+thread_local! {
+    /// (real main root, real aux root) of the last equivocating proof, as canonical bytes
+    pub static REAL_ROOTS: RefCell<(Vec<u8>, Vec<u8>)> = const { RefCell::new((vec![], vec![])) };
+}
+
+/// `DefaultTraceLde` behind a wrapper that can lie about a commitment. Honest unless told so.
+pub struct SimTraceLde<E: FieldElement, H: ElementHasher<BaseField = E::BaseField>> {
+    inner: DefaultTraceLde<E, H>,
+    lie: Option<Lie>,
+}
+
+fn another_digest<H: ElementHasher>(d: &H::Digest) -> H::Digest {
+    H::merge(&[*d, *d])
+}
+
+impl<E: FieldElement, H: ElementHasher<BaseField = E::BaseField> + Sync> TraceLde<E> for SimTraceLde<E, H>
+where
+    E::BaseField: StarkField,
+{
+    type HashFn = H;
+
+    fn get_main_trace_commitment(&self) -> H::Digest {
+        let real = self.inner.get_main_trace_commitment();
+        if self.lie == Some(Lie::MainCommitment) {
+            REAL_ROOTS.with(|r| r.borrow_mut().0 = utils::Serializable::to_bytes(&real));
+            another_digest::<H>(&real)
+        } else {
+            real
+        }
+    }
+
+    fn set_aux_trace(&mut self, aux_trace: &ColMatrix<E>, domain: &StarkDomain<E::BaseField>) -> (ColMatrix<E>, H::Digest) {
+        let (polys, real) = self.inner.set_aux_trace(aux_trace, domain);
+        if self.lie == Some(Lie::AuxCommitment) {
+            REAL_ROOTS.with(|r| r.borrow_mut().1 = utils::Serializable::to_bytes(&real));
+            (polys, another_digest::<H>(&real))
+        } else {
+            (polys, real)
+        }
+    }
+
+    fn read_main_trace_frame_into(&self, lde_step: usize, frame: &mut EvaluationFrame<E::BaseField>) {
+        self.inner.read_main_trace_frame_into(lde_step, frame)
+    }
+
+    fn read_aux_trace_frame_into(&self, lde_step: usize, frame: &mut EvaluationFrame<E>) {
+        self.inner.read_aux_trace_frame_into(lde_step, frame)
+    }
+
+    fn read_lagrange_kernel_frame_into(&self, lde_step: usize, col_idx: usize, frame: &mut air::LagrangeKernelEvaluationFrame<E>) {
+        self.inner.read_lagrange_kernel_frame_into(lde_step, col_idx, frame)
+    }
+
+    fn query(&self, positions: &[usize]) -> Vec<air::proof::Queries> {
+        self.inner.query(positions)
+    }
+
+    fn trace_len(&self) -> usize {
+        self.inner.trace_len()
+    }
+
+    fn blowup(&self) -> usize {
+        self.inner.blowup()
+    }
+
+    fn trace_info(&self) -> &TraceInfo {
+        self.inner.trace_info()
+    }
+}
+
 /// What the prover node did, for the harness to inspect afterwards.
 #[derive(Default)]
 pub struct ProverRecord {
@@ -614,13 +692,14 @@ pub struct SimProver<B: SimField, H: ElementHasher<BaseField = B>, R: RandomCoin
     pub options: ProofOptions,
     pub inputs: SimInputs<B>,
     pub aux_fault: Option<AuxFault>,
+    pub lie: Option<Lie>,
     pub record: RefCell<ProverRecord>,
     _p: PhantomData<(H, R)>,
 }
 
 impl<B: SimField, H: ElementHasher<BaseField = B>, R: RandomCoin<BaseField = B, Hasher = H>> SimProver<B, H, R> {
     pub fn new(options: ProofOptions, inputs: SimInputs<B>) -> Self {
-        SimProver { options, inputs, aux_fault: None, record: RefCell::new(ProverRecord::default()), _p: PhantomData }
+        SimProver { options, inputs, aux_fault: None, lie: None, record: RefCell::new(ProverRecord::default()), _p: PhantomData }
     }
 }
 
@@ -651,7 +730,7 @@ where
     type Trace = SimTrace<B>;
     type HashFn = H;
     type RandomCoin = R;
-    type TraceLde<E: FieldElement<BaseField = B>> = DefaultTraceLde<E, H>;
+    type TraceLde<E: FieldElement<BaseField = B>> = SimTraceLde<E, H>;
     type ConstraintEvaluator<'a, E: FieldElement<BaseField = B>> = DefaultConstraintEvaluator<'a, SimAir<B>, E>;
 
     fn get_pub_inputs(&self, _trace: &SimTrace<B>) -> SimInputs<B> {
@@ -668,7 +747,8 @@ where
         main_trace: &ColMatrix<B>,
         domain: &StarkDomain<B>,
     ) -> (Self::TraceLde<E>, TracePolyTable<E>) {
-        DefaultTraceLde::new(trace_info, main_trace, domain)
+        let (inner, polys) = DefaultTraceLde::new(trace_info, main_trace, domain);
+        (SimTraceLde { inner, lie: self.lie }, polys)
     }
 
     fn new_evaluator<'a, E: FieldElement<BaseField = B>>(
